@@ -1131,4 +1131,74 @@ example : Accepted exNow { start := .year } ∧ Accepted (exNow + 9500000) { sta
   ⟨⟨by decide, by intro t off h; cases h⟩, ⟨by decide, by intro t off h; cases h⟩,
    by decide +kernel, by decide +kernel, by decide⟩
 
+/-! ## segment availability: what the server lists is examined
+
+The server's SegmentTimeline starts with the segment that CONTAINS the left edge of the time
+shift window (`generateSegmentTimeline`: the segment holding `firstAvailableTime = now − depth`):
+a listed segment ends after `now − depth` (`hlisted`: the validator's `start` – the instant the
+segment is complete – is later than `now − depth`; channel `vavail` counts how often the sessions
+of the real server satisfy it, and in most sessions the stronger `hinside` below holds).  The validator's interval then ends more
+than one segment duration after `now`, so with segments at least as long as the two-second
+margin every listed segment is fetched at `now` … `now + (duration − margin)`. -/
+
+theorem listed_segment_examined (now now' tsbd durUs : Int) (a : Avail)
+    (hstop : a.stop = a.start + tsbd + durUs)
+    (hlisted : now - tsbd < a.start) (hcomplete : a.start ≤ now)
+    (h1 : now ≤ now') (h2 : now' + availMarginUs ≤ now + durUs) :
+    availDecision now' (some a) = Fetch.fetch := by
+  unfold availDecision
+  have hA : ¬ a.start > now' := by omega
+  have hB : ¬ a.stop < now' + availMarginUs := by omega
+  simp [hA, hB]
+
+/-- a segment that STARTS inside the window (every listed segment but the oldest): two segment
+durations of slack, so one-second segments suffice -/
+theorem listed_segment_examined_inside (now now' tsbd durUs : Int) (a : Avail)
+    (hstop : a.stop = a.start + tsbd + durUs)
+    (hinside : now - tsbd ≤ a.start - durUs) (hcomplete : a.start ≤ now)
+    (h1 : now ≤ now') (h2 : now' + availMarginUs ≤ now + 2 * durUs) :
+    availDecision now' (some a) = Fetch.fetch := by
+  unfold availDecision
+  have hA : ¬ a.start > now' := by omega
+  have hB : ¬ a.stop < now' + availMarginUs := by omega
+  simp [hA, hB]
+
+/-- the interval of the model has the shape the two theorems ask for -/
+theorem segmentAvailability_stop (past tsbd : Int) (ts : Nat) (pto sn sd : Int) (e : SegExp) :
+    (segmentAvailability past tsbd ts pto sn sd e).stop
+      = (segmentAvailability past tsbd ts pto sn sd e).start + tsbd + tcToUs sd ts := rfl
+
+/-- a segment is never both left for later and given up: once complete it is `fetch` or `expired`,
+and `expired` only when its interval ends within the margin -/
+theorem availDecision_expired_iff (now : Int) (a : Avail) :
+    availDecision now (some a) = Fetch.expired ↔ a.start ≤ now ∧ a.stop < now + availMarginUs := by
+  unfold availDecision
+  by_cases h1 : a.start > now
+  · simp [h1]; omega
+  · by_cases h2 : a.stop < now + availMarginUs
+    · simp [h1, h2]; omega
+    · simp [h1, h2]
+
+/-- two-second segments, depth 8 s, timescale 240, `now` = 100.3 s after the Period began: the
+segment that holds the left edge of the window (decode 92 s … 94 s) is fetched … -/
+def exAvailExp (dt : Int) : SegExp := { expSeq := none, expDecode := some dt, expDur := some 480, tol := 30, pto := 0 }
+example : segmentAvailability 0 8000000 240 0 1 480 (exAvailExp 22080) = { start := 94000000, stop := 104000000 } := by
+  decide
+example : availDecision 100300000 (some (segmentAvailability 0 8000000 240 0 1 480 (exAvailExp 22080)))
+    = Fetch.fetch := by decide
+/-- … whereas an interval WITHOUT the extra segment duration (stop = start + depth) would give it
+up: the term is what makes the theorem true -/
+example : availDecision 100300000 (some { start := 94000000, stop := 94000000 + 8000000 }) = Fetch.expired := by
+  decide
+/-- $Number$ addressing: the decode time is derived from the number; segment 47 of 2 s segments -/
+example : segmentAvailability 0 8000000 240 0 1 480 { exAvailExp 0 with expSeq := some 47, expDecode := none }
+    = { start := 94000000, stop := 104000000 } := by decide
+/-- not yet complete -/
+example : availDecision 93999999 (some { start := 94000000, stop := 104000000 }) = Fetch.notYet := by decide
+/-- ONE-second segments lie outside `h2` of `listed_segment_examined` (duration < margin): the listed
+segment that holds the window's edge is given up although the server lists and serves it –
+ledger `short-segments-oldest-skipped` -/
+example : availDecision 100300000 (some (segmentAvailability 0 8000000 240 0 1 240
+    { exAvailExp 21840 with expDur := some 240 })) = Fetch.expired := by decide
+
 end DashLive.Validator
